@@ -19,7 +19,8 @@ TraceLog == ndJsonDeserialize(IOEnv.TRACE)
 VARIABLES l, sec, ls, dac, codes, bs, sq, rp, nbad
 tvars == <<l, sec, ls, dac, codes, bs, sq, rp, nbad>>
 
-Upd(f, k, v) == (k :> v) @@ f
+\* the drivers finish with one component instance before they build the next: only the latest one is kept
+Upd(f, k, v) == (k :> v)
 C(p, w) == [p |-> p, w |-> w]
 
 Report(ev, Cs) ==
